@@ -84,7 +84,13 @@ func c08Data() map[string]interface{} {
 		"bad3": map[string]interface{}{"k1": "x", "k2": true, "k3": []int{1}, "k4": map[string]int{}, "k5": "y"},
 		"ok3":  map[string]interface{}{"k1": 1.0, "k2": 2.0, "k3": 3.0},
 		// failing entries whose keys print alike (1 and "1"; [2]string{"a b","c"} and {"a","b c"})
-		"fmk":  func(m map[interface{}]int) (int, error) { return len(m), nil },
+		"fmk": func(m map[interface{}]int) (int, error) { return len(m), nil },
+		// entries that are not of the element's shape at all (a string or a boolean where a map is expected,
+		// a null where a list is): whichever entry the conversion meets first, the error is the same
+		"fmm":  func(m map[string]map[string]string) (int, error) { return len(m), nil },
+		"fml":  func(m map[string][]string) (int, error) { return len(m), nil },
+		"bad2": map[string]interface{}{"a": "x", "b": true, "c": 7, "d": []int{1}},
+		"badn": map[string]interface{}{"a": nil, "b": "x", "c": true, "d": map[string]int{}},
 		"badk": map[interface{}]interface{}{1: "x", "1": true, int64(1): []int{1}, [2]string{"a b", "c"}: "y", [2]string{"a", "b c"}: false},
 	}
 }
@@ -124,7 +130,7 @@ var c08Pool = func() []poolEntry {
 		"date(1e-70, 1, 1)", "left(s, 1e-70) + toString(10/3)", "[1e-70 % 3, 7 % 1e9000, 1e9000 % 7]",
 		"(n ?? n)!.c", "(n ? a : n)!.c", "(z && n)!.x", "[n][0]", "f(1, 'x')!.y", "(a + b)!.z", "(typeof n)!.k + 1",
 		"foo()", "left(s,-1)", "n!.y", "regexp(s,'(')", "ef()", "x = 1", "[a].b",
-		"fm(bad3)", "fm(ok3)", "fmi(bad3)", "fmk(badk)",
+		"fm(bad3)", "fm(ok3)", "fmi(bad3)", "fmk(badk)", "fmm(bad2)", "fml(badn)", "fmm(badn)", "fml(bad2)",
 		"$g = 5e70, [ln($g) == ln($g), log($g), log($g), $g]", "[log(1e100), ln(3e65), sqrt(4e70), exp(-200)]", "n!.alpha", "n!.beta", "p.zz!.alpha.beta", "toString(bad3) + toString(ok3)", "join([bad3, ok3], ';')",
 	}
 	var pool []poolEntry
